@@ -47,6 +47,7 @@ def jobs(tier, seed):
     out.append({'fn': 'qty_pairs', 'cfg': {'pairs': [['°C', '°F'], ['°C', 'K'], ['K', '°F'], ['K', 'K'], ['°F', '°F']],
                                            'fa': 'dec', 'fb': 'frac', 'converter': True}})
     out.append({'fn': 'money_pairs', 'cfg': {}})
+    out.append({'fn': 'alloc_portions', 'cfg': {}})
     out.append({'fn': 'user_units', 'cfg': {}})
     out.append({'fn': 'terms', 'cfg': {}})
     for mi in range(3):
@@ -152,6 +153,31 @@ def _eur():
 def _usd():
     from quantity.money import Money
     return Money.register_currency('USD')
+
+
+def alloc_portions(E, cfg):
+    """quantities produced by another operation (portions of an allocation, adjusted in steps of a quantum) hash like
+    equal quantities built directly"""
+    from decimalfp import Decimal
+    from quantity import Quantity
+    import quantity.predefined as pre
+    us = E.choice('unit', ['B', 'kB', 'b', 'lb'])
+    u = C.unit(us)
+    amt = E.choice('amount', ['10', '7.125', '1'])
+    ratios = E.choice('ratios', [[1, 1, 1], [38, 5, 2, 15], [3, 7]])
+    portions, rem = Quantity(Decimal(amt), u).allocate(ratios)
+    others = [v for v in u.qty_cls.units() if v is not u][:3]
+    for i, p in enumerate(portions + [rem]):
+        for v in others + [u]:
+            same = p.convert(v)
+            if same == p:
+                E.check(E.hash_equal(E.hash_of(p), E.hash_of(same)), 'portion-hashes-like-its-conversion',
+                        key='qty-hash:portion', info=[us, amt, ratios, i, v.symbol])
+            twin = Quantity(p.amount, p.unit)
+            E.check(twin == p and E.hash_equal(E.hash_of(p), E.hash_of(twin)), 'portion-hashes-like-a-fresh-twin',
+                    key='qty-hash:portion-twin', info=[us, amt, ratios, i])
+        E.check(len({p, Quantity(p.amount, p.unit)}) == 1 if E.mode == 'conc' else True, 'set-holds-one-of-portion-and-twin',
+                key='qty-hash:portion-set')
 
 
 def rates(E, cfg):
